@@ -256,4 +256,46 @@ def prefixCollect (f : Flat) (p : Key) : Nat → It → List KV
 def prefixAll (step : Bool) (f : Flat) (p : Key) : List KV :=
   prefixCollect f p (f.values.length + 1) (seek step f p).1
 
+/-! ### cursor walks: arbitrary mixes of `Next` and `Prev` from any starting position -/
+
+/-- one cursor move of a caller -/
+inductive Mv where
+  | next
+  | prev
+  deriving Repr, DecidableEq
+
+/-- `it.Next()` / `it.Prev()` -/
+def move (f : Flat) (it : It) : Mv → It
+  | .next => next f it
+  | .prev => prev f it
+
+/-- what a caller can observe of a position: `Valid()`, and then `Key()` / `Value()` -/
+def obs (f : Flat) (it : It) : Option KV := if it.valid then some (key f it, value f it) else none
+
+/-- the observations after each move of a script -/
+def walk (f : Flat) (it : It) : List Mv → List (Option KV)
+  | [] => []
+  | m :: r => obs f (move f it m) :: walk f (move f it m) r
+
+/-- the same on the sorted-map side: a cursor is an index into the sorted pairs or "invalid";
+`Next` past the last pair and `Prev` before the first one invalidate it, an invalid cursor stays
+invalid (`Next` / `Prev` return at once while `!it.valid`) -/
+def cursorMove (n : Nat) : Option Nat → Mv → Option Nat
+  | none, _ => none
+  | some i, .next => if i + 1 < n then some (i + 1) else none
+  | some i, .prev => if i = 0 then none else some (i - 1)
+
+def cursorObs (kvs : List KV) : Option Nat → Option KV
+  | none => none
+  | some i => kvs[i]?
+
+/-- what forward enumeration from a cursor yields -/
+def cursorRest (kvs : List KV) : Option Nat → List KV
+  | none => []
+  | some i => kvs.drop i
+
+def cursorWalk (kvs : List KV) (c : Option Nat) : List Mv → List (Option KV)
+  | [] => []
+  | m :: r => cursorObs kvs (cursorMove kvs.length c m) :: cursorWalk kvs (cursorMove kvs.length c m) r
+
 end LinVerif.LoudsIter
